@@ -5,6 +5,7 @@
 (*   root -> base b -> rule r -> run(case)            single edits          *)
 (*   root -> base b -> rule r -> second(edit 1) -> run(case)   Tier "pairs" *)
 (*                                                                         *)
+(* (an edited program passes through phase "edit" before its configurations fan out)  *)
 (* A case = base program x one edit of the catalogue (EditsFor) x backend  *)
 (* x -r, or base program x command-line fault, or the unedited base.       *)
 (* For every case TLC                                                      *)
@@ -46,21 +47,34 @@ PickRule == /\ phase = "base"
             /\ phase' = "rule"
             /\ UNCHANGED <<bi, cs, prog, cmd, brk, broken, expected, conf>> /\ IdleUnchanged
 
+\* which rules of the case hold, and whether the input is broken: the rules the case stands for are
+\* evaluated first, the whole catalogue only if none of them holds
+Judge(p, c, case) ==
+  LET declared == CASE case.kind = "idl" -> {case.edits[k].rule : k \in Idx(case.edits)}
+                    [] case.kind = "cmd" -> {case.rule}
+                    [] OTHER -> {}
+      holding == {r \in declared : Holds(r, p, c)}
+  IN /\ brk' = holding
+     /\ broken' = IF holding # {} THEN TRUE ELSE Broken(p, c)
+
+\* an edited program, not yet run (its command line will be a good one)
+Edited(p, case) ==
+  /\ prog' = p /\ cs' = case /\ phase' = "edit"
+  /\ Judge(p, GoodCmd("go", FALSE), case)
+  /\ UNCHANGED <<bi, rule, cmd, expected, conf>> /\ IdleUnchanged
+
 \* enter the pipeline with program p and command line c
-Start(p, c, case) ==
-  /\ prog' = p /\ cmd' = c /\ cs' = case
-  /\ LET declared == CASE case.kind = "idl" -> {case.edits[k].rule : k \in Idx(case.edits)}
-                        [] case.kind = "cmd" -> {case.rule}
-                        [] OTHER -> {}
-         holding == {r \in declared : Holds(r, p, c)}
-     IN /\ brk' = holding
-        \* the rules the case stands for are evaluated first; the whole catalogue only if none of them holds
-        /\ broken' = IF holding # {} THEN TRUE ELSE Broken(p, c)
+Enter(p, c) ==
+  /\ cmd' = c
   /\ expected' = ExpectedFiles(p, c)
   /\ conf' = TRUE
   /\ phase' = "run"
   /\ stage' = "args" /\ outcome' = NoOutcome /\ filesWritten' = {} /\ li' = 1 /\ mech' = ""
   /\ UNCHANGED <<bi, rule>>
+Start(p, c, case) ==
+  /\ prog' = p /\ cs' = case
+  /\ IF phase = "edit" THEN UNCHANGED <<brk, broken>> ELSE Judge(p, c, case)
+  /\ Enter(p, c)
 
 \* backend x -r. The quick tier runs the rules whose values only the backend types under all four
 \* configurations and the others under two (go without -r, fastgo with -r); thorough runs all four.
@@ -70,12 +84,15 @@ Configs(r) == IF Tier = "quick" /\ r \notin ConfigRules THEN {<<"go", FALSE>>, <
 
 IdlCase(es) == [kind |-> "idl", rule |-> es[Len(es)].rule, edits |-> es]
 
+\* the edit is applied and judged once (phase "edit"), then the configurations fan out
 PickEdit ==
   /\ phase = "rule" /\ rule \in IDLRules /\ Tier # "pairs"
   /\ LET base == Bases[bi].prog
          es == EditsFor(base, rule, 1, Deep)
-     IN \E k \in Idx(es) : \E c \in Configs(rule) :
-          Start(ApplyEdit(base, es[k]), GoodCmd(c[1], c[2]), IdlCase(<<es[k]>>))
+     IN \E k \in Idx(es) : Edited(ApplyEdit(base, es[k]), IdlCase(<<es[k]>>))
+PickConfig ==
+  /\ phase = "edit"
+  /\ \E c \in Configs(rule) : Start(prog, GoodCmd(c[1], c[2]), cs)
 
 PickCmdFault ==
   /\ phase = "rule" /\ rule = "cmd" /\ Tier # "pairs"
@@ -99,16 +116,17 @@ PickSecond ==
   /\ \E r2 \in IDLRules :
        LET base == Bases[bi].prog
            es == EditsFor(base, r2, 2, FALSE)
-       IN \E k \in Idx(es) : \E b \in Backends : \E r \in BOOLEAN :
-            LET both == cs.edits \o <<es[k]>> IN
-            Start(ApplyEdits(base, both), GoodCmd(b, r), IdlCase(both))
+       IN \E k \in Idx(es) : LET both == cs.edits \o <<es[k]>> IN Edited(ApplyEdits(base, both), IdlCase(both))
 
 Run == /\ phase = "run"
        /\ BNext(prog, cmd)
        /\ conf' = (conf /\ ANext(broken, expected))
        /\ UNCHANGED <<phase, bi, rule, cs, prog, cmd, brk, broken, expected>>
 
-Next == PickBase \/ PickRule \/ PickEdit \/ PickCmdFault \/ PickNone \/ PickFirst \/ PickSecond \/ Run
+\* prog, broken, brk and expected are functions of (bi, cs, cmd): they are left out of the fingerprint
+View == <<stage, outcome, filesWritten, li, mech, phase, bi, rule, cs, cmd, conf>>
+
+Next == PickBase \/ PickRule \/ PickEdit \/ PickConfig \/ PickCmdFault \/ PickNone \/ PickFirst \/ PickSecond \/ Run
 Spec == Init /\ [][Next]_vars
 
 -----------------------------------------------------------------------------
